@@ -35,6 +35,15 @@ CHECKS = {
    note='which pool vector is drawn is an oracle; pool validity under masks is C09.',
    technique='Coq proof (list induction over the reals) + regenerated kernels/guards/dataflow + stepwise correspondence evaluated in Coq (vm_compute over Q)',
    ref='DESIGN.md section 4 C11'),
+ 'C14': dict(
+   text='Theorems (Coq, reals, all data sets / K more or fewer than rows / iteration counts / any score): cluster sizes are non-negative and add up to the number of rows; init writes codes = means, counts = bins, running sums = code * count, flag set; '
+        'count-weighted sum of codes = sum of data; every code is a convex combination of data rows (induction over iterations: mean of members, or kept previous mean, or a seed row); only valid tokens reach k-means; '
+        'the first call (any mode) initialises, the flag is monotone under every operation and no later operation depends on the k-means oracle (exactly once). '
+        'Tie: k-means loop body, the four writes of init_embed_, its guard, the valid-token selection and the persistence of `initted` regenerated from the source and pinned; one iteration of the implementation\'s kmeans() replicated by the model in Coq; '
+        'loop = iterated single iteration (bit-exact); first calls in eval / frozen / train mode with masks and adversarial padding checked against the invariants in Coq; later calls, state_dict reload and deepcopy never re-run k-means.',
+   note='seeds are an oracle (contract: rows of the valid data, checked); iterations with near-tie assignments (gap < 1e-4) are discarded from the replication stream and counted; a training first call also performs one EMA step (empty clusters then sit at the origin).',
+   technique='Coq proof (reals, induction over iterations, convex combinations) + regenerated dataflow/guards + per-iteration correspondence and state invariants evaluated in Coq',
+   ref='DESIGN.md section 4 C14'),
  'C12': dict(
    text='Theorems (Coq, axiom-free, all n, cutoff, multiple_of, draws r): the layers that run are exactly the prefix {0..k-1} with k = min(n, round_up(r+1, m)); cutoff < k <= n; m | k or k = n; '
         'dropped layers form a suffix; every admissible k is produced by some in-contract draw; dropout is off when not training / indices supplied / dropout disabled / one layer. '
